@@ -3,7 +3,7 @@
 // Contracts for package profile, checked by /verif/govc (comment-only; compiled only with -tags verif).
 package profile
 
-//@ prelude c07
+//@ prelude c07 c01
 
 //@ func Genvar(hint string) string
 //@   ensures [C07:gen-prefix] hasPrefix(result, "gen_" + hint + "_")
@@ -21,3 +21,102 @@ package profile
 //@   ensures [C13:no-placeholder-unchanged] len(result.Variables) == 0 ==> result.Expression == rawExpression
 //@   loop 1 /* for _, v := range matches */
 //@     invariant [C13] len(variables) == #i && (len(matches) == 0 ==> expression == rawExpression)
+
+// ---- classical connectives (C01) ------------------------------------------------------------------------------
+// holds / allHold / anyHold / okOperand / wfRule are defined in spec/c01.smt2; ruleNeg / ruleBody / rulePos come from the
+// struct layouts (govc/ruletheory.go). self is the receiver boxed as a Rule.
+
+//@ func (Rule) Negate() Rule
+//@   requires [C01:operand] okOperand(self)
+//@   ensures [C01:negates] holds(result) == !holds(self)
+//@   ensures [C01:stays-operand] okOperand(result)
+
+//@ func NewAnd(negated bool, body []Rule) AndRule
+//@   ensures [C01:fields] result.Negated == negated && result.Body == body
+
+//@ func NewOr(negated bool, body []Rule) OrRule
+//@   ensures [C01:fields] result.Negated == negated && result.Body == body
+
+//@ func newConditional(negated bool, rules *[]Rule) ConditionalRule
+//@   requires rules != nil
+//@   ensures [C01:fields] result.Negated == negated && result.Body == deref(rules)
+
+//@ func NewConditional(negated bool, ifRule Rule, thenRule Rule) ConditionalRule
+//@   ensures [C01:fields] result.Negated == negated && result.Body == snoc(snoc(empty(Seq_Any), ifRule), thenRule)
+
+//@ func NewIfThenElseConditional(negated bool, ifRule Rule, thenRule Rule, elseRule Rule) ConditionalRule
+//@   ensures [C01:fields] result.Negated == negated && result.Body == snoc(snoc(snoc(empty(Seq_Any), ifRule), thenRule), elseRule)
+
+//@ func (r AndRule) Negate() Rule
+//@   requires [C01:operands] allOk(r.Body)
+//@   ensures [C01:de-morgan] is(result, profile.OrRule) && !ruleNeg(result) && anyHold(ruleBody(result)) == !allHold(r.Body) && allOk(ruleBody(result)) && len(ruleBody(result)) == len(r.Body)
+//@   loop 1 /* for i, br := range r.Body */
+//@     invariant [C01] len(negatedBody) == len(r.Body) && anyHold(take(negatedBody, #i)) == !allHold(take(r.Body, #i)) && allOk(take(negatedBody, #i))
+
+//@ func (r OrRule) Negate() Rule
+//@   requires [C01:operands] allOk(r.Body)
+//@   ensures [C01:de-morgan] is(result, profile.AndRule) && !ruleNeg(result) && allHold(ruleBody(result)) == !anyHold(r.Body) && allOk(ruleBody(result)) && len(ruleBody(result)) == len(r.Body)
+//@   loop 1 /* for i, br := range r.Body */
+//@     invariant [C01] len(negatedBody) == len(r.Body) && allHold(take(negatedBody, #i)) == !anyHold(take(r.Body, #i)) && allOk(take(negatedBody, #i))
+
+//@ func (r ConditionalRule) Negate() Rule
+//@   verify [C01]
+
+//@ func (r ConditionalRule) IfRule() Rule
+//@   requires [C17:has-if] len(r.Body) >= 1
+//@   ensures [C01:operand] result == r.Body[0]
+
+//@ func (r ConditionalRule) ThenRule() Rule
+//@   requires [C17:has-then] len(r.Body) >= 2
+//@   ensures [C01:operand] result == r.Body[1]
+
+//@ func (r ConditionalRule) ElseRule() Rule
+//@   requires [C17:has-else] len(r.Body) >= 3
+//@   ensures [C01:operand] result == r.Body[2]
+
+//@ func (r ConditionalRule) ElseIsDefined() bool
+//@   ensures [C01:else] result == (len(r.Body) > 2)
+
+//@ func (r ConditionalRule) ThenMaterialImplication() OrRule
+//@   requires [C01:wf] wfRule(box(profile.ConditionalRule, r))
+//@   ensures [C01:implication] result.Negated == r.Negated && anyHold(result.Body) == (!holds(r.Body[0]) || holds(r.Body[1])) && allOk(result.Body) && len(result.Body) == 2
+
+//@ func (r ConditionalRule) ElseMaterialImplication() OrRule
+//@   requires [C01:wf] wfRule(box(profile.ConditionalRule, r)) && len(r.Body) == 3
+//@   ensures [C01:implication] result.Negated == r.Negated && anyHold(result.Body) == (holds(r.Body[0]) || holds(r.Body[2])) && allOk(result.Body) && len(result.Body) == 2
+
+//@ func (r CountRule) Negate() Rule
+//@   verify [C01]
+
+//@ func (r DatatypeRule) Negate() Rule
+//@   verify [C01]
+
+//@ func (r NumericRule) Negate() Rule
+//@   verify [C01]
+
+//@ func (r PatternRule) Negate() Rule
+//@   verify [C01]
+
+//@ func (r PropertyComparisonRule) Negate() Rule
+//@   verify [C01]
+
+//@ func (r RegoRule) Negate() Rule
+//@   verify [C01]
+
+//@ func (r ScalarSetRule) Negate() Rule
+//@   verify [C01]
+
+//@ func (r UniqueValuesRule) Negate() Rule
+//@   verify [C01]
+
+//@ func (exp NestedExpression) Negate() Rule
+//@   verify [C01]
+
+//@ func (exp Expression) Negate() Rule
+//@   verify [C01]
+
+//@ func (exp TopLevelExpression) Negate() Rule
+//@   verify [C01]
+
+//@ func (rs RuleSlice) Len() int
+//@   ensures [C01:len] result == len(rs)
